@@ -65,6 +65,19 @@ def bounded_cases(ctx: Ctx):
                         c["by_chunks"] = [c["chunks"]]
                         c["method"] = "map-reduce" if c["method"] == "cohorts" else c["method"]
                 cases.append(c)
+    # boolean data with a fill that is not a boolean (an absent label must show the user's fill, not True)
+    for func in ("max", "min", "nanmax", "nanmin", "first", "last", "nanfirst", "nanlast", "any", "all"):
+        for pat in gen.sample(pats, 3 if ctx.quick else 12, rng):
+            for fill in ("nan", 0, -5, True):
+                i += 1
+                lab = gen.labels_to_array(pat)
+                present = sorted({x for x in lab.tolist() if x == x})
+                vb = np.array(rng.integers(0, 2, size=n), dtype=bool)
+                c = dict(array=enc(vb), by=[enc(lab)], func=func, expected_groups=[present + [max(present) + 10]], fill_value=fill, engine=[None, "numpy", "flox"][i % 3])
+                if i % 2 and func not in ("first", "last"):
+                    c["chunks"] = [list(chunkings[i % len(chunkings)])]
+                    c["method"] = [None, "map-reduce", "cohorts"][i % 3]
+                cases.append(c)
     # partial-axis reductions (2-D labels reduced along the last axis): every row has its own missing / unrequested
     # labels and its own absent requested labels
     for func in ("sum", "nansum", "count", "max", "nanmin", "mean", "first", "nanlast", "prod", "any"):
